@@ -129,6 +129,20 @@ def _call_truth(c, p, name):
     return None
 
 
+def check_reuse_manifest_offset(ctx):
+    """A reused MANIFEST is appended at its measured size: the log writer's
+    block position is length % 32768, so a wrong length makes later records
+    straddle block boundaries (shared with C17)."""
+    vr = ctx.fn("ldb_versions_reuse_manifest", "src/version_set.c")
+    fs = one_call(ctx, vr, "ldb_file_size")[0][2]
+    ap = one_call(ctx, vr, "ldb_appendfile_create")[0][2]
+    wc = one_call(ctx, vr, "ldb_writer_create")[0][2]
+    ok = argkey(fs, 0) == argkey(ap, 0) and argkey(fs, 1) == "&" + (argkey(wc, 1) or "") and \
+        argkey(ap, 1) == "&" + (argkey(wc, 0) or "")
+    ctx.check(ok, "T6-log-reuse-offset", "reuse_manifest", vr.name, site(vr, wc),
+              "the reused MANIFEST is appended at its measured size", "MANIFEST reuse offset/file mismatch")
+
+
 def check_log_file(ctx):
     f = ctx.fn("ldb_recover_log_file", DB)
     g = xgraph(ctx.P, f)
@@ -165,14 +179,7 @@ def check_log_file(ctx):
     ctx.check(holds(atoms, ("!=", "last_log", "0")) and holds(atoms, ("==", "compactions", "0")) and
               holds(atoms, ("==", "rc", "0")), "T2-log-reuse-guard", "last&&uncompacted", f.name, site(f, wcev[2]),
               "only the last, fully replayed, unflushed log is reused", "log reuse guard weakened: %s" % fmt_atoms(atoms))
-    vr = ctx.fn("ldb_versions_reuse_manifest", "src/version_set.c")
-    fs = one_call(ctx, vr, "ldb_file_size")[0][2]
-    ap = one_call(ctx, vr, "ldb_appendfile_create")[0][2]
-    wc = one_call(ctx, vr, "ldb_writer_create")[0][2]
-    ok = argkey(fs, 0) == argkey(ap, 0) and argkey(fs, 1) == "&" + (argkey(wc, 1) or "") and \
-        argkey(ap, 1) == "&" + (argkey(wc, 0) or "")
-    ctx.check(ok, "T6-log-reuse-offset", "reuse_manifest", vr.name, site(vr, wc),
-              "the reused MANIFEST is appended at its measured size", "MANIFEST reuse offset/file mismatch")
+    check_reuse_manifest_offset(ctx)
     # leftover memtable is flushed before success
     newmem = lambda e: e["e"] == "asg" and key(e["lhs"]) == "mem" and key(e["rhs"]).startswith("ldb_memtable_create(")
     must_pass_before_success(ctx, "T1-replay-flush", "mem-flushed-or-adopted", f,
